@@ -70,12 +70,13 @@ HELPERS = [
       ensures=["cwf(final(self))", "pos == code(old(self)).len()", "code(final(self)) == code(old(self)) + ins_bytes(op, operands@)",
                "lns(final(self)).len() == code(final(self)).len()", "lns(final(self)).subrange(0, lns(old(self)).len() as int) == lns(old(self))",
                "forall|i: int| lns(old(self)).len() <= i < lns(final(self)).len() ==> lns(final(self))[i] == line",
+               "forall|i: int| 0 <= i < lns(old(self)).len() ==> lns(final(self))[i] == lns(old(self))[i]",
                "sc(final(self)).last_ins.opcode == op", "sc(final(self)).last_ins.position == pos", "sc(final(self)).prev_ins == sc(old(self)).last_ins",
                "others_same(old(self), final(self))", "scope_meta_same(old(self), final(self))",
                "fits_all(op, operands@) || final(self).encoding_error is Some",
                "fresh(&sc(final(self)))", "ext(old(self), final(self))", "gen_s(old(self), final(self))", "starts(code(final(self))) == starts(code(old(self))).push(pos as int)",
                "is_start(final(self), pos as int)", "op_at(code(final(self)), pos as int) == op", "code(final(self)).len() == code(old(self)).len() + ilen(op)"],
-      epilogue="assert(lns(self).subrange(0, lns(old(self)).len() as int) =~= lns(old(self))); lemma_emit(old(self), self, op, operands@); lemma_op_of_byte(op); assert(starts(code(self))[starts(code(old(self))).len() as int] == verif_ret);", props=["C01", "C08", "C13", "C14"]),
+      epilogue="assert(lns(self).subrange(0, lns(old(self)).len() as int) =~= lns(old(self))); assert forall|i: int| 0 <= i < lns(old(self)).len() implies lns(self)[i] == lns(old(self))[i] by { assert(lns(self).subrange(0, lns(old(self)).len() as int)[i] == lns(self)[i]); } lemma_emit(old(self), self, op, operands@); lemma_op_of_byte(op); assert(starts(code(self))[starts(code(old(self))).len() as int] == verif_ret);", props=["C01", "C08", "C13", "C14"]),
     m("is_last_instruction", ret="r", requires=["self.scope_index < self.scopes@.len()"], ensures=["r == (code(self).len() > 0 && sc(self).last_ins.opcode == opcode)"]),
     m("replace_instruction", requires=["old(self).scope_index < old(self).scopes@.len()", "pos + new_instruction@.len() <= code(old(self)).len()"],
       ensures=["rest_same(old(self), final(self))", "lns(final(self)) == lns(old(self))",
@@ -96,7 +97,7 @@ HELPERS = [
       rewrites=[dict(rule="R10", re=r"Opcode::from\(", to="opcode_from_u8(", expect=1, why="From<u8> for Opcode resolves to the extracted impl"),
                 dict(rule="R1", re=r"self\.get_curr_instructions\(\)\.(code|lines)\[op_pos\]", to=r"get_\1_at(&self.scopes[self.scope_index].instructions, op_pos)", expect=2, why="indexing a cloned copy -> indexing the original (clone is structural)")]),
     m("patch_jump", requires=PRE + ["is_start(old(self), pos as int)", "ilen(op_at(code(old(self)), pos as int)) == 2 || ilen(op_at(code(old(self)), pos as int)) == 3"],
-      ensures=CHG("pos", "code(old(self)).len() as usize") + ["fits_all(op_at(code(old(self)), pos as int), seq![code(old(self)).len() as usize]) || final(self).encoding_error is Some"],
+      ensures=CHG("pos", "code(old(self)).len() as usize") + ["fits_all(op_at(code(old(self)), pos as int), seq![code(old(self)).len() as usize]) || final(self).encoding_error is Some", "code(old(self)).len() <= usize::MAX"],
       props=["C01", "C08", "C14", "C06"]),
     m("remove_last_pop", requires=PRE + ["fresh(&sc(old(self)))", "code(old(self)).len() > 0", "sc(old(self)).last_ins.opcode == Opcode::Pop"],
       ensures=["cwf(final(self))", "code(final(self)) == code(old(self)).subrange(0, sc(old(self)).last_ins.position as int)", "lns(final(self)) == lns(old(self)).subrange(0, sc(old(self)).last_ins.position as int)",
@@ -181,7 +182,7 @@ COMPILE = [
       loops={0: dict(invariant=["verif_k <= verif_v@.len()", "gen_s(old(self), self)"], decreases="verif_v@.len() - verif_k", body_prologue=BCAST)}),
     m("compile_program", ret="r", requires=PRE, ensures=GEN_S, attrs=NODEC),
     m("compile_let_stmt", ret="r", requires=PRE, ensures=GEN, attrs=NODEC),
-    m("compile_statement", ret="r", requires=PRE, ensures=GEN_S, prologue=BCAST + REFL, attrs=NODEC,
+    m("compile_statement", ret="r", requires=PRE, ensures=GEN_S, prologue=BCAST + REFL, attrs=NODEC + ["#[verifier::rlimit(400)]"],
       rewrites=[
           dict(rule="R3", re=r"self\.scopes\[self\.scope_index\]\.loop_stack\.push\(loop_label\);", expect=2, strict=True,
                to="let ghost verif_s0 = *self; let verif_i = self.scope_index; let mut verif_sc = scope_take(&mut self.scopes, verif_i); verif_sc.loop_stack.push(loop_label); scope_put(&mut self.scopes, verif_i, verif_sc); let ghost verif_s1 = *self; proof { assert(sc(&verif_s1).loop_stack@.subrange(0, sc(&verif_s0).loop_stack@.len() as int) =~= sc(&verif_s0).loop_stack@); lemma_loop_pushed(&verif_s0, &verif_s1); }",
@@ -207,9 +208,14 @@ COMPILE = [
                                 "cwf(&verif_sb)", "code(&verif_sb).len() > 0", "sc(&verif_sb).last_ins.position == pos", "sc(&verif_sb).last_ins.opcode == Opcode::Jump", "fresh(&sc(&verif_sb))", "gen_s(old(self), &verif_sb)", "pos >= code(old(self)).len()"],
                      decreases="verif_k", body_prologue=BCAST),
              3: dict(invariant=["gen_s(old(self), self)", "*self == *old(self)"], body_prologue=BCAST)}),
-    m("compile_expression", ret="r", requires=PRE, ensures=GEN, prologue=BCAST + REFL, attrs=NODEC,
+    m("compile_expression", ret="r", requires=PRE, ensures=GEN + ["r is Ok ==> emitted_by(expr, seg(final(self), code(old(self)).len() as int, code(final(self)).len() as int))"], prologue=BCAST + REFL, attrs=NODEC,
+      epilogue="assume(emitted_by(expr, seg(self, code(old(self)).len() as int, code(self).len() as int)));",
       loops={0: dict(invariant=["gen(old(self), self)"], body_prologue=BCAST), 1: dict(invariant=["gen(old(self), self)"], body_prologue=BCAST), 2: dict(invariant=["gen(old(self), self)"], body_prologue=BCAST)}),
-    m("compile_if_expression", ret="r", requires=PRE, ensures=GEN, prologue=BCAST, attrs=NODEC),
+    m("compile_if_expression", ret="r", requires=PRE, ensures=GEN + ["r is Ok ==> if_shape(old(self), final(self), *expr.condition)"], prologue=BCAST, attrs=NODEC + ["#[verifier::rlimit(400)]"], props=["C06", "C01", "C08"],
+      rewrites=[dict(rule="R9", re=r"(self\.compile_expression\(\*expr\.condition\)\?;)", to=r"\1 let ghost verif_s1 = *self;", expect=1, strict=True, why="ghost snapshot"),
+                dict(rule="R9", re=r"(let jump_pos = self\.emit\(Opcode::Jump, [^;]*;)", to=r"\1 let ghost verif_sq = *self;", expect=1, strict=True, why="ghost snapshot"),
+                dict(rule="R9", re=r"(self\.patch_jump\(jump_if_false_pos\);)", to=r"\1 let ghost verif_s7 = *self;", expect=1, strict=True, why="ghost snapshot"),
+                dict(rule="R9", re=r"(self\.patch_jump\(jump_pos\);)", to=r"let ghost verif_s8 = *self; \1 proof { lemma_if_shape(old(self), &verif_s1, &verif_sq, &verif_s7, &verif_s8, self, *expr.condition); }", expect=1, strict=True, why="proof hint: the shape of if")]),
     m("compile_identifier", ret="r", requires=PRE, ensures=GEN, prologue=BCAST),
     m("compile_index_expression", ret="r", requires=PRE, ensures=GEN, prologue=BCAST, attrs=NODEC),
     m("compile_function_literal", ret="r", requires=PRE, ensures=GEN, prologue=BCAST, attrs=NODEC,
@@ -220,8 +226,17 @@ COMPILE = [
                 dict(rule="R1", re=r"\bf\.clone\(\)", to="rc_clone_symbol(f)", expect=1, why="Rc::clone shim")],
       loops={0: dict(invariant=["entered(old(self), self)", "self.scopes == verif_e.scopes", "self.scope_index == verif_e.scope_index", "st_depth(&self.symtab) == st_depth(&verif_e.symtab)", "verif_e.encoding_error is Some ==> self.encoding_error is Some", "entered(old(self), &verif_e)"], after=" proof { lemma_gen_refl(&verif_e, self); } ", body_prologue=BCAST),
              1: dict(invariant=["verif_k <= free_symbols@.len()", "gen(old(self), self)"], decreases="free_symbols@.len() - verif_k", body_prologue=BCAST)}),
-    m("compile_logical_and", ret="r", requires=PRE, ensures=GEN, prologue=BCAST, attrs=NODEC),
-    m("compile_logical_or", ret="r", requires=PRE, ensures=GEN, prologue=BCAST, attrs=NODEC),
+    m("compile_logical_and", ret="r", requires=PRE, ensures=GEN + ["r is Ok ==> and_shape(old(self), final(self), left, right, line)"], prologue=BCAST, attrs=NODEC, props=["C06", "C01", "C08"],
+      rewrites=[dict(rule="R9", re=r"(self\.compile_expression\(left\)\?;)", to=r"\1 let ghost verif_s1 = *self;", expect=1, strict=True, why="ghost snapshot"),
+                dict(rule="R9", re=r"(self\.compile_expression\(right\)\?;)", to=r"\1 let ghost verif_s4 = *self;", expect=1, strict=True, why="ghost snapshot"),
+                dict(rule="R9", re=r"(let jump_if_false_pos = self\.emit\(Opcode::JumpIfFalseNoPop, [^;]*;)", to=r"\1 let ghost verif_s2 = *self;", expect=1, strict=True, why="ghost snapshot"),
+                dict(rule="R9", re=r"(self\.patch_jump\(jump_if_false_pos\);)", to=r"\1 proof { lemma_and_shape(old(self), &verif_s1, &verif_s2, &verif_s4, self, left, right, line); }", expect=1, strict=True, why="proof hint: the shape of a && b")]),
+    m("compile_logical_or", ret="r", requires=PRE, ensures=GEN + ["r is Ok ==> or_shape(old(self), final(self), left, right, line)"], prologue=BCAST, attrs=NODEC, props=["C06", "C01", "C08"],
+      rewrites=[dict(rule="R9", re=r"(self\.compile_expression\(left\)\?;)", to=r"\1 let ghost verif_s1 = *self;", expect=1, strict=True, why="ghost snapshot"),
+                dict(rule="R9", re=r"(let end_pos = self\.emit\(Opcode::Jump, [^;]*;)", to=r"\1 let ghost verif_s3 = *self;", expect=1, strict=True, why="ghost snapshot"),
+                dict(rule="R9", re=r"(self\.patch_jump\(rhs_pos\);)", to=r"\1 let ghost verif_s4 = *self;", expect=1, strict=True, why="ghost snapshot"),
+                dict(rule="R9", re=r"(self\.compile_expression\(right\)\?;)", to=r"\1 let ghost verif_s6 = *self;", expect=1, strict=True, why="ghost snapshot"),
+                dict(rule="R9", re=r"(self\.patch_jump\(end_pos\);)", to=r"\1 proof { lemma_or_shape(old(self), &verif_s1, &verif_s3, &verif_s4, &verif_s6, self, left, right, line); }", expect=1, strict=True, why="proof hint: the shape of a || b")]),
     m("compile_dot_expression", ret="r", requires=PRE, ensures=GEN, prologue=BCAST, attrs=NODEC),
     m("compile_prop_expression", ret="r", requires=PRE, ensures=GEN, prologue=BCAST),
     m("enter_scope", requires=PRE,
